@@ -628,3 +628,188 @@ func TestVerif_C12_UDPMuxModel(t *testing.T) {
 		}
 	})
 }
+
+// Concurrent mode: writers, inbound traffic, removals and closes in parallel (race detector on);
+// order-insensitive oracle.
+func TestVerif_C12_Concurrent(t *testing.T) {
+	st := vfNewStats(t)
+	lf := logging.NewDefaultLoggerFactory()
+	lf.DefaultLogLevel = logging.LogLevelDisabled
+	rapid.Check(t, func(rt *rapid.T) {
+		nConns := rapid.IntRange(2, 4).Draw(rt, "conns")
+		nIn := rapid.IntRange(5, 40).Draw(rt, "inbound")
+		type wr struct{ Conn, Dst, Delay int }
+		type ev struct {
+			Kind  string
+			Conn  int
+			Delay int
+		}
+		writes := make([]wr, rapid.IntRange(1, 20).Draw(rt, "nWrites"))
+		for i := range writes {
+			writes[i] = wr{rapid.IntRange(0, nConns-1).Draw(rt, "wc"), rapid.IntRange(0, len(c12Sources)-1).Draw(rt, "wd"), rapid.IntRange(0, 15).Draw(rt, "wdelay")}
+		}
+		evs := make([]ev, rapid.IntRange(0, 3).Draw(rt, "nEvents"))
+		for i := range evs {
+			evs[i] = ev{rapid.SampledFrom([]string{"remove", "close"}).Draw(rt, "ek"), rapid.IntRange(0, nConns-1).Draw(rt, "ec"), rapid.IntRange(0, 60).Draw(rt, "edelay")}
+		}
+		type in struct {
+			Src   int
+			Ufrag int // -1 = non-STUN data
+		}
+		ins := make([]in, nIn)
+		for i := range ins {
+			ins[i] = in{rapid.IntRange(0, len(c12Sources)-1).Draw(rt, "isrc"), rapid.IntRange(-1, nConns-1).Draw(rt, "iu")}
+		}
+		desc := fmt.Sprintf("conns=%d writes=%v events=%v inbound=%v", nConns, writes, evs, ins)
+		base := newC12Base("0.0.0.0:7000")
+		mux := NewUDPMuxDefault(UDPMuxParams{Logger: lf.NewLogger("verif"), UDPConn: c12BaseAP{base}})
+		defer mux.Close() //nolint:errcheck
+		base.waitReading()
+		handles := make([]net.PacketConn, nConns)
+		wrote := make([]map[netip.AddrPort]bool, nConns) // canonical destinations each conn ever wrote to
+		var wmu sync.Mutex
+		for i := range handles {
+			h, err := mux.GetConn(fmt.Sprintf("cu%d", i), &net.UDPAddr{IP: net.IPv4(10, 0, 0, 1), Port: 7000})
+			if err != nil {
+				rt.Fatalf("harness: %v", err)
+			}
+			handles[i] = h
+			wrote[i] = map[netip.AddrPort]bool{}
+		}
+		type got struct {
+			conn int
+			data []byte
+		}
+		var (
+			gmu  sync.Mutex
+			gots []got
+			wg   sync.WaitGroup
+			rwg  sync.WaitGroup
+		)
+		for i := range handles {
+			rwg.Add(1)
+			go func(i int) {
+				defer rwg.Done()
+				buf := make([]byte, 2000)
+				for {
+					n, _, err := handles[i].ReadFrom(buf)
+					if err != nil {
+						return
+					}
+					gmu.Lock()
+					gots = append(gots, got{i, append([]byte{}, buf[:n]...)})
+					gmu.Unlock()
+				}
+			}(i)
+		}
+		for _, w := range writes {
+			wg.Add(1)
+			go func(w wr) {
+				defer wg.Done()
+				c11Jitter(w.Delay)
+				dst := c12Sources[w.Dst]
+				wmu.Lock()
+				wrote[w.Conn][c12Canon(dst)] = true
+				wmu.Unlock()
+				_, _ = handles[w.Conn].WriteTo([]byte("out"), &net.UDPAddr{IP: dst.Addr().AsSlice(), Port: int(dst.Port()), Zone: dst.Addr().Zone()})
+			}(w)
+		}
+		for _, e := range evs {
+			wg.Add(1)
+			go func(e ev) {
+				defer wg.Done()
+				c11Jitter(e.Delay)
+				if e.Kind == "remove" {
+					mux.RemoveConnByUfrag(fmt.Sprintf("cu%d", e.Conn))
+				} else {
+					_ = handles[e.Conn].Close()
+				}
+			}(e)
+		}
+		wg.Add(1)
+		go func() {
+			defer wg.Done()
+			for k, x := range ins {
+				var data []byte
+				if x.Ufrag >= 0 {
+					data = c12Stun(fmt.Sprintf("cu%d:r%04d", x.Ufrag, k), true)
+				} else {
+					data = []byte(fmt.Sprintf("\x80data-%04d", k))
+				}
+				if !base.push(c12In{data, c12Sources[x.Src]}) {
+					return
+				}
+			}
+		}()
+		done := make(chan struct{})
+		go func() { wg.Wait(); close(done) }()
+		select {
+		case <-done:
+		case <-time.After(30 * time.Second):
+			st.Inconclusive()
+			rt.Fatalf("VERIF-INCONCLUSIVE: concurrent program still running after 30 s")
+		}
+		_ = mux.Close()
+		for _, h := range handles {
+			_ = h.Close()
+		}
+		rwg.Wait()
+		// oracle
+		gmu.Lock()
+		defer gmu.Unlock()
+		seen := map[string]int{}
+		for _, g := range gots {
+			seen[string(g.data)]++
+		}
+		expected := map[string]in{}
+		for k, x := range ins {
+			if x.Ufrag >= 0 {
+				expected[string(c12StunKey(fmt.Sprintf("cu%d:r%04d", x.Ufrag, k)))] = x
+			} else {
+				expected[fmt.Sprintf("\x80data-%04d", k)] = x
+			}
+		}
+		for _, g := range gots {
+			key := string(g.data)
+			if stun.IsMessage(g.data) {
+				key = string(c12StunKey(c12Username(g.data)))
+			}
+			x, ok := expected[key]
+			if !ok {
+				st.Fail(rt, "C12/concurrent/fabricated-or-modified", "connection cu%d received %d bytes that were never sent\n%s", g.conn, len(g.data), desc)
+
+				continue
+			}
+			if seen[string(g.data)] > 1 {
+				st.Fail(rt, "C12/concurrent/delivered-twice", "a datagram was delivered %d times\n%s", seen[string(g.data)], desc)
+			}
+			src := c12Canon(c12Sources[x.Src])
+			wmu.Lock()
+			byAddr := wrote[g.conn][src]
+			wmu.Unlock()
+			byUfrag := x.Ufrag == g.conn
+			if !byAddr && !byUfrag {
+				st.Fail(rt, "C12/concurrent/foreign-traffic", "connection cu%d received a datagram from %s (username ufrag cu%d) although it never wrote to that address\n%s", g.conn, src, x.Ufrag, desc)
+			}
+		}
+		st.Record(vfHashStr(desc), len(evs) > 0 && len(writes) >= 2, fmt.Sprintf("events:%d", len(evs)))
+		if len(evs) > 0 && st.WantSample() {
+			st.Sample(func() string { return desc })
+		}
+	})
+}
+
+func c12Username(raw []byte) string {
+	m := &stun.Message{Raw: append([]byte{}, raw...)}
+	if m.Decode() != nil {
+		return ""
+	}
+	var u stun.Username
+	if u.GetFrom(m) != nil {
+		return ""
+	}
+
+	return u.String()
+}
+
+func c12StunKey(username string) []byte { return []byte("stun:" + username) }
